@@ -144,11 +144,32 @@ func ruleDepCacheRecompute(c *Ctx) {
 				}
 			}
 			if put != nil {
-				sl := w.BackSlice(put.Arg(0), sliceOpt{})
-				if sl.Fields["listedPackage.GarbleActionID"] && len(sl.Calls) == 0 {
-					c.OK("R07.2", key, w.Pos(r.Pos()), "computed entry stored with PutBytes(lpkg.GarbleActionID) before returning")
+				// the id the entry is stored under must be the one loadPkgCache looks it up with:
+				// lpkg.GarbleActionID on both sides, or the same key function of the package on both sides
+				shape := func(v ssa.Value) string {
+					vs := w.BackSlice(v, sliceOpt{})
+					if len(vs.Calls) == 0 && vs.Fields["listedPackage.GarbleActionID"] {
+						return "field GarbleActionID"
+					}
+					if len(vs.Calls) == 1 {
+						for name := range vs.Calls {
+							return "call " + name
+						}
+					}
+					return "?" + vs.Summary()
+				}
+				writer, reader := shape(put.Arg(0)), ""
+				if lp := w.Fn("loadPkgCache"); lp != nil {
+					for _, gcs := range w.CallsTo(cacheGetFile) {
+						if gcs.Fn == lp {
+							reader = shape(gcs.Arg(0))
+						}
+					}
+				}
+				if writer == reader && !strings.HasPrefix(writer, "?") {
+					c.OK("R07.2", key, w.Pos(r.Pos()), "computed entry stored under the id loadPkgCache looks it up with ("+writer+"), before returning")
 				} else {
-					c.Bad("R07.2", key, w.Pos(put.Instr.Pos()), "the computed entry is stored under an id other than the package's GarbleActionID ("+sl.Summary()+"), so loadPkgCache's GetFile(lpkg.GarbleActionID) will never hit")
+					c.Bad("R07.2", key, w.Pos(put.Instr.Pos()), "the computed entry is stored under "+writer+" but loadPkgCache looks it up under "+reader+": the entry is never found again, or a stale one is")
 				}
 				continue
 			}
